@@ -589,7 +589,7 @@ fn main() {
                 candidate IRIs, labels and language tags (valid and invalid) to the constructors. Non-trivial = \
                 non-empty set; distinct by case text."
         .to_string();
-    let n = if args.thorough { 24000 } else { 900 };
+    let n = if args.thorough { 24000 } else { 640 };
     for c in 0..n {
         run_case(&mut out, args.seed, c);
     }
